@@ -7,6 +7,8 @@ import GlueVerif.Lemmas.C16Point
 import GlueVerif.Lemmas.C16Cache
 import GlueVerif.Lemmas.C16Links
 import GlueVerif.Lemmas.C16Image
+import GlueVerif.Model.C16Args
+import GlueVerif.Lemmas.C16Args
 /-!
 # C16 — a fixed-resolution buffer equals nearest-pixel resampling through the links; a cache
 identifier never changes a result
@@ -22,7 +24,7 @@ reference dataset contain every pixel axis it depends on — proved for the repa
 `dependent_axes` in C15 and restated here as `world_leaf_wf`.
 -/
 namespace GlueVerif.C16
-open GlueVerif GlueVerif.FRB GlueVerif.FRB.Impl GlueVerif.Lemmas.C16
+open GlueVerif GlueVerif.FRB GlueVerif.FRB.Impl GlueVerif.FRB.Args GlueVerif.Lemmas.C16
 
 /-! ## nearest pixel -/
 
@@ -300,6 +302,131 @@ theorem data_changed_in_place_stale :
     (runOps true f15World .empty (ops (some 0))).map cells = [[.num 14, .num 15], [.num 14, .num 15]] ∧
     (runOps false f15World .empty (ops (some 0))).map cells = [[.num 14, .num 15], [.num 7, .num 8]] := by
   decide +kernel
+
+/-! ## argument object identity (round 3)
+
+`Model/C16Args.lean`: the `bounds` argument is a list *object* of the caller (`BArg.obj oid`, contents
+in the heap `Lists`) or a list built for one call (`BArg.fresh`); a stored key is a list the cache owns
+(`KeyRef.own`) or a reference to a caller's list (`KeyRef.ref`, read through the heap when the hit test
+runs); a stored array is a private copy or the buffer a caller holds (`AEntry.shared`).  `Policy` = what
+the code stores; histories `AOp` interleave requests with in-place edits of the caller's lists
+(`set` / `push` / `pop` / `assign`) and of returned buffers (`editBuf`).  The Spec of a request is the
+uncached answer for the **current** contents of its arguments (`runArgs pol false`). -/
+
+/-- **One operation.**  From caches that are valid as the next call sees them (`AInv`: the invariant
+of `cache_step_sound` on the caches with every reference resolved through the heap), an operation that
+does not write to a cell shared with a cache (`Shares`: a list some stored key refers to, a buffer
+that is a stored array) keeps them valid, and a request is answered like the call without a cache id
+on the contents its arguments have now — for **any** storage policy. -/
+theorem cache_step_sound_args (pol : Policy) (st : AState) (hw : st.world.wf) (hinv : AInv st) (op : AOp)
+    (hop : op.isArgOp = true) (hns : ¬ Shares st op) :
+    AInv (stepA pol true st op).2 ∧
+    ∀ r, op = .req r → (stepA pol true st op).1 = some (frbUncached st.world (r.toReq st.lists)) :=
+  stepA_sound pol st hw hinv op hop hns
+
+/-- **No sharing, no staleness** — any policy, any history of requests and in-place edits of bounds
+lists / returned buffers (any length, any objects, the same list submitted again after an edit, equal
+fresh copies, …): if no edit writes to a cell that a stored key or a stored array shares with the
+caller (`Unshared`), every answer with its cache id equals the answer of `cache_id=None` for the
+contents the arguments have at that moment. -/
+theorem cache_sound_unshared (pol : Policy) (w : World) (hw : w.wf) (L : Lists) (ops : List AOp)
+    (hops : ∀ op, op ∈ ops → op.isArgOp = true) (hun : Unshared pol (.init w L) ops) :
+    runArgs pol true (.init w L) ops = runArgs pol false (.init w L) ops :=
+  runArgs_sound pol ops _ _ hw rfl rfl hops (ainv_init w L) hun
+
+/-- **Cache soundness with argument identity.**  If the stored keys own their data and the stored
+array is a private copy (`Policy.owns`: what is stored never shares a cell with a caller-visible list
+or buffer — an invariant of the caches, `ACaches.Owned`, that every call preserves), then for **every**
+history with in-place mutation of arguments and results between requests, cached = uncached.  No
+hypothesis on the history. -/
+theorem cache_sound_args (pol : Policy) (hpol : pol.owns) (w : World) (hw : w.wf) (L : Lists)
+    (ops : List AOp) (hops : ∀ op, op ∈ ops → op.isArgOp = true) :
+    runArgs pol true (.init w L) ops = runArgs pol false (.init w L) ops :=
+  cache_sound_unshared pol w hw L ops hops (unshared_of_owned hpol ops _ owned_empty)
+
+/-- The invariant behind it: under an owning policy the caches never hold a reference to a caller's
+list nor a caller's buffer, whatever the history does. -/
+theorem owned_invariant (pol : Policy) (hpol : pol.owns) (st : AState) (h : st.caches.Owned) (op : AOp) :
+    (stepA pol true st op).2.caches.Owned ∧ ¬ Shares st op :=
+  ⟨stepA_owned hpol st h op, not_shares_of_owned h op⟩
+
+/-- The tree under test is an owning policy: `bounds_for_cache` builds a new list for `ARRAY_CACHE`
+and for `PIXEL_CACHE` (the hash tuple built at the top, which holds `bounds`, is only compared, never
+stored), the array is copied when stored and when returned from the cache (F18). -/
+theorem policy_as_coded_owns : Policy.coded.owns := ⟨fun _ => rfl, fun _ => rfl, rfl, rfl⟩
+
+/-- With a new list for every call (the round-1/2 histories; `get_sliced_data`) the object-level
+model of the code is the value-level model `runOps true` of `cache_sound`. -/
+theorem args_fresh_is_value_model (w : World) (L : Lists) (rs : List Req) :
+    runArgs Policy.coded true (.init w L) (freshOps rs) = runOps true w .empty (rs.map Op.req) :=
+  runArgs_fresh w rs (.init w L) rfl
+
+/-- a loop over the slices of a cube that re-uses one bounds list: `b = [0, (0, 1, 2)]`, request,
+`b[0] = 2`, request — same object, same cache id -/
+def sliceLoop : List AOp :=
+  [.assign 0 [.scalar 0, .range 0 1 2],
+   .req ⟨0, .obj 0, 0, .comp 0 0, true, some 0⟩,
+   .set 0 0 (.scalar 2),
+   .req ⟨0, .obj 0, 0, .comp 0 0, true, some 0⟩]
+
+/-- **Storing the caller's list breaks it** (seeded change C16c: the hash built at the top of the
+function is kept when no scalar bound is wildcard-eligible — it holds `bounds` itself).  After
+`b[0] = 2` the stored key has changed with the list, the hit test compares the list with itself and
+the buffer of slice 0 is returned for slice 2.  The coded policy (and the uncached call) give slice 2.
+The same with `PIXEL_CACHE[…]['bounds'] = bounds`: the array cache misses, the stale pixel
+coordinates of slice 0 are used. -/
+theorem caller_list_stored_stale :
+    (runArgs Policy.refIfNoWildcard true (.init f15World fun _ => []) sliceLoop).map cells
+      = [[.num 10, .num 11], [.num 10, .num 11]] ∧
+    (runArgs Policy.pixelRefs true (.init f15World fun _ => []) sliceLoop).map cells
+      = [[.num 10, .num 11], [.num 10, .num 11]] ∧
+    (runArgs Policy.coded true (.init f15World fun _ => []) sliceLoop).map cells
+      = [[.num 10, .num 11], [.num 14, .num 15]] ∧
+    (runArgs Policy.refIfNoWildcard false (.init f15World fun _ => []) sliceLoop).map cells
+      = [[.num 10, .num 11], [.num 14, .num 15]] := by
+  decide +kernel
+
+/-- **F18 (fixed).**  On the pinned tree the array stored in `ARRAY_CACHE` is the object handed to the
+caller: `buf[...] = -7` on the returned buffer and the same request again under the same cache id
+returns `-7` everywhere; the call without cache id returns the data.  With private copies
+(`Policy.coded`, the repaired tree) the edit is invisible. -/
+theorem returned_buffer_shared_stale :
+    let ops : List AOp :=
+      [.req ⟨0, .fresh [.scalar 2, .range 0 1 2], 0, .comp 0 0, true, some 0⟩,
+       .editBuf 0 (-7),
+       .req ⟨0, .fresh [.scalar 2, .range 0 1 2], 0, .comp 0 0, true, some 0⟩]
+    (runArgs Policy.pinnedArrays true (.init f15World fun _ => []) ops).map cells
+      = [[.num 14, .num 15], [.num (-7), .num (-7)]] ∧
+    (runArgs Policy.coded true (.init f15World fun _ => []) ops).map cells
+      = [[.num 14, .num 15], [.num 14, .num 15]] ∧
+    (runArgs Policy.pinnedArrays false (.init f15World fun _ => []) ops).map cells
+      = [[.num 14, .num 15], [.num 14, .num 15]] := by
+  decide +kernel
+
+/-- non-vacuity: a history with an in-place edit, an append / pop that is restored, an equal fresh
+copy and an edited result — the coded policy hits `ARRAY_CACHE` for the fresh copy and for the
+restored list and answers everything like the uncached call -/
+example :
+    let ops : List AOp :=
+      [.assign 0 [.scalar 0, .range 0 1 2],
+       .req ⟨0, .obj 0, 0, .comp 0 0, true, some 0⟩,
+       .assign 1 [.scalar 0, .range 0 1 2],
+       .editBuf 0 5,
+       .req ⟨0, .obj 1, 0, .comp 0 0, true, some 0⟩,
+       .push 0 (.scalar 1),
+       .req ⟨0, .obj 0, 0, .comp 0 0, true, some 0⟩,
+       .pop 0,
+       .req ⟨0, .obj 0, 0, .comp 0 0, true, some 0⟩,
+       .set 0 1 (.range 0 1 1),
+       .req ⟨0, .obj 0, 0, .comp 0 0, true, some 0⟩]
+    (∀ op, op ∈ ops → op.isArgOp = true) ∧
+    (runArgs Policy.coded true (.init f15World fun _ => []) ops).map cells
+      = [[.num 10, .num 11], [.num 10, .num 11], [], [.num 10, .num 11], [.num 10]] ∧
+    runArgs Policy.coded true (.init f15World fun _ => []) ops
+      = runArgs Policy.coded false (.init f15World fun _ => []) ops := by
+  decide +kernel
+
+example : f15World.wf := fun _ _ _ => rfl
 
 /-- a 3-pixel source whose pixel frame is the reference frame shifted by a Julian date: the boundary
 between source pixels 1 and 2 lies at reference coordinate 2459000.5 -/
